@@ -53,7 +53,7 @@ def run_variant(pid, patch, kind='break', timeout=300):
 
 def run_for(pid, jobs=16):
     vs = variants(pid)
-    res = {'variants': len(vs), 'killed': 0, 'missed': [], 'twins_silent': 0, 'twins_alarmed': [], 'skipped': [], 'inconclusive': []}
+    res = {'variants': len(vs), 'killed': 0, 'missed': [], 'twins_silent': 0, 'twins_alarmed': [], 'twins_inconclusive': [], 'skipped': [], 'inconclusive': []}
     def one(v):
         name, d, meta = v
         return name, meta, run_variant(pid, os.path.join(d, 'patch.diff'), meta.get('kind', 'break'))
@@ -72,6 +72,8 @@ def run_for(pid, jobs=16):
             else:
                 if r['exit'] == 0:
                     res['twins_silent'] += 1
+                elif r['exit'] == 2:
+                    res.setdefault('twins_inconclusive', []).append(name)      # outside the fragment: no VIOLATION line
                 else:
                     res['twins_alarmed'].append(name)
     return res
